@@ -7,7 +7,7 @@ PROP = dict(
              timeout_quick=400, timeout_thorough=1500),
         # deps must be a tuple here: run/stages.py concatenates it with a tuple
         dict(name="c09_fuzz", kind="fuzz", src="fuzz/c09_parse.cc", deps=("harness/c09/ref.hh",), corpus="corpus/c09/fuzz", dict="fuzz/c09_parse.dict",
-             max_len=512, seconds_quick=15, seconds_thorough=480, workers_quick=8, workers_thorough=16, replay_ext="fuzz"),
+             max_len=512, seconds_quick=15, seconds_thorough=300, workers_quick=8, workers_thorough=16, replay_ext="fuzz"),
     ],
     rule=("(a) round trip: every string of length <= 5 (quick) / 6 (thorough) over {\\ \" ' n ? a LF NUL} x {no mask, HEX_ONLY, alternating mask, "
           "hash-derived mask}, every byte value alone and paired with each metacharacter x 4 masks x both flags, plus rapidcheck byte strings of "
